@@ -7,6 +7,7 @@ import (
 	"go/types"
 	"os"
 	"sort"
+	"strings"
 	"time"
 
 	"golang.org/x/tools/go/packages"
@@ -100,6 +101,7 @@ func main() {
 		os.Exit(2)
 	}
 	pre := loadPrelude()
+	initPrelude(pre)
 	hf, fs := scanPrelude(pre)
 	x := &Exec{prog: prog, pkg: pkg, cf: cf, heapFns: hf, fnSort: fs, strs: map[string]int{}, floats: map[string]int{},
 		maxPaths: 200000, usedCt: map[string]bool{}, assumptions: map[string]bool{}}
@@ -243,7 +245,13 @@ func main() {
 	rep.NamedObls = len(byName)
 	for _, f := range rep.Functions {
 		rep.Feasible[f] = feasibleReturn[f]
-		if feasibleReturn[f] == 0 && !cf.ByFunc[f].Flags["always-panics"] {
+		hadErr := false
+		for _, e := range x.errs {
+			if strings.HasPrefix(e, f+":") {
+				hadErr = true
+			}
+		}
+		if feasibleReturn[f] == 0 && !cf.ByFunc[f].Flags["always-panics"] && !hadErr {
 			x.errorf("%s: vacuity guard: no feasible normal-return path (contradictory requires?)", f)
 		}
 	}
